@@ -16,6 +16,10 @@ sys.path.insert(0, os.path.dirname(os.path.dirname(os.path.abspath(__file__))))
 from xh import env  # noqa: E402
 
 
+def _alarm(signum, frame):
+    raise TimeoutError('record did not finish within the replay time limit')
+
+
 def run_record(rec: dict) -> str:
     from xh import rt
     H = importlib.import_module(rec['prop_mod'])
@@ -45,10 +49,15 @@ def main(argv):
         for f in files:
             with open(f) as fh:
                 rec = json.load(fh)
+            import signal
+            signal.signal(signal.SIGALRM, _alarm)
+            signal.alarm(int(os.environ.get('XH_REPLAY_LIMIT', '300')))
             try:
                 text = run_record(rec)
             except BaseException as e:  # noqa
                 text = 'REPLAY-ERROR %s: %s' % (type(e).__name__, e)
+            finally:
+                signal.alarm(0)
             out = {'file': f, 'property': rec.get('property'), 'reproduced': text != '', 'text': text}
             if text != '':
                 rc = 1
